@@ -51,12 +51,14 @@ func (fb *fileBuilder) printElements(elements sourceElements) error {
 
 	lastEnd := 0
 	lastType := 0
-	for _, element := range elements {
+	for idx, element := range elements {
 
 		// if there is a newline in the source file, add one here. This isn't
 		// strictly necessary, but sometimes the code looks a bit better that
 		// way, the reformat should preserve.
-		if lastEnd > 0 && (element.sourceLocation.StartLine > lastEnd+1 || element.typeOrder != lastType) {
+		// A change of element kind gets a gap whether or not the descriptor has
+		// source locations, so that printing the parsed output prints the same.
+		if idx > 0 && ((lastEnd > 0 && element.sourceLocation.StartLine > lastEnd+1) || element.typeOrder != lastType) {
 			fb.addGap()
 		}
 
